@@ -316,6 +316,18 @@ def builder_case(ctx, case):
     if not refed.verify_strict(X, m, sig[:64]):
         ctx.violation({'builder': 'decrypt_adapter', 'clause': 'decrypted signature verifies (reference)'}, f'{tag}')
     sigitem = sig + (bytes([fl]) if fl else b'')
+    # anyone recovers t from the signature and the adapter witness through the library's own recovery function (y = 0); a form of the
+    # signature it does not take (flag byte attached, cut short) is refused, never turned into another scalar
+    for form, sg in (('64 bytes', sig[:64]), ('with flag byte', sig[:64] + bytes([fl])), ('with flag byte 5a', sig[:64] + b'\x5a'), ('63 bytes', sig[:63])):
+        try:
+            rec = T_.release_left_amhl_lock(wit.bytes if hasattr(wit, 'bytes') else wit, sg, bytes(32))
+        except BaseException as e:
+            if form == '64 bytes':
+                ctx.violation({'builder': 'release_left_amhl_lock', 'clause': 'recovers t = s - sa', 'how': 'raises'}, f'{tag}: {e!r}')
+            continue
+        ctx.ran()
+        if type(rec) is not bytes or int.from_bytes(rec, 'little') % L != te % L:
+            ctx.violation({'builder': 'release_left_amhl_lock', 'clause': 'recovers t = s - sa', 'signature form': form}, f'{tag}: recovered another scalar')
     ok2 = auth([P(sigitem), l2.bytes], sf)
     ctx.ran(); ctx.trans(3)
     if not ok2:
